@@ -18,10 +18,11 @@ type c03Cell struct {
 	maxStale bool
 	failTTL  int64 // 0 default, -1 disabled
 	buildErr bool
-	flavour  int // 0 failover/sharded 1 failover/syncmap 2 failoverOf/shardedOf 3 failover/ShardedMapOf[any]
+	flavour  int // 0 failover/sharded 1 failover/syncmap 2 failoverOf/shardedOf 3 failover/ShardedMapOf[any] 4 FailoverOf[any]/syncmap
 	offset   int // 0..2 clock offset variant
 	syncRead bool
 	nilPre   bool // the cached value is a nil interface (untyped API only)
+	wrapErr  bool // the backend is a decorator that wraps read errors (expired items reachable via errors.As only)
 }
 
 var c03Cells []c03Cell
@@ -34,7 +35,7 @@ func init() {
 					for _, maxStale := range []bool{false, true} {
 						for _, failTTL := range []int64{0, -1} {
 							for _, buildErr := range []bool{false, true} {
-								for flavour := 0; flavour < 4; flavour++ {
+								for flavour := 0; flavour < 5; flavour++ {
 									for offset := 0; offset < 3; offset++ {
 										for _, syncRead := range []bool{false, true} {
 											if failHit && failTTL == -1 {
@@ -45,10 +46,14 @@ func init() {
 												continue
 											}
 
-											c03Cells = append(c03Cells, c03Cell{state, failHit, syncUpd, failHard, maxStale, failTTL, buildErr, flavour, offset, syncRead, false})
+											c03Cells = append(c03Cells, c03Cell{state, failHit, syncUpd, failHard, maxStale, failTTL, buildErr, flavour, offset, syncRead, false, false})
 
 											if state != "absent" && flavour != 2 && offset == 1 {
-												c03Cells = append(c03Cells, c03Cell{state, failHit, syncUpd, failHard, maxStale, failTTL, buildErr, flavour, offset, syncRead, true})
+												c03Cells = append(c03Cells, c03Cell{state, failHit, syncUpd, failHard, maxStale, failTTL, buildErr, flavour, offset, syncRead, true, false})
+											}
+
+											if offset == 1 {
+												c03Cells = append(c03Cells, c03Cell{state, failHit, syncUpd, failHard, maxStale, failTTL, buildErr, flavour, offset, syncRead, false, true})
 											}
 										}
 									}
@@ -83,7 +88,7 @@ func genC03(r *rand.Rand, run int, tier string) *Scenario {
 	sc.NoFastPath = run >= len(c03Cells) && chance(r, 0.3)
 	sc.Sched = genSched(r, 40)
 
-	fo := &FOScenario{Keys: []string{"k0"}}
+	fo := &FOScenario{Keys: []string{"k0"}, WrapBackendErrs: c.wrapErr}
 	sc.FO = fo
 
 	switch c.flavour {
@@ -93,6 +98,8 @@ func genC03(r *rand.Rand, run int, tier string) *Scenario {
 		fo.API, fo.Backend = "failover", "syncmap"
 	case 3:
 		fo.API, fo.Backend = "failover", "shardedOfAny"
+	case 4:
+		fo.API, fo.Backend = "failoverOfAny", "syncmap"
 	default:
 		fo.API, fo.Backend = "failoverOf", "shardedOf"
 	}
@@ -148,6 +155,10 @@ func (r *foRun) c03Cell() string {
 
 	if in.NilValue {
 		state += "(nil value)"
+	}
+
+	if sc.WrapBackendErrs {
+		state += "(decorated backend)"
 	}
 
 	return fmt.Sprintf("%s failCached=%v syncUpdate=%v failHard=%v maxStaleness=%v failedTTL=%d buildErr=%v api=%s",
